@@ -66,6 +66,32 @@ OPS = [
     ("neg", re.compile(r"\bif (?!let\b)([^{]+) \{\s*$"), None),         # if c { -> if !(c) {
     ("some", re.compile(r"\bSome\(([a-z_]+)\)"), None),                 # handled as no-op (kept for future)
 ]
+# second operator set (--ops B): run after set A
+OPS_B = [
+    ("relswap", re.compile(r"(?<=[\w\)\]]) < (?=[\w\(])"), [" > "]),
+    ("relswap", re.compile(r"(?<=[\w\)\]]) > (?=[\w\(])"), [" < "]),
+    ("relswap", re.compile(r" <= "), [" >= "]),
+    ("relswap", re.compile(r" >= "), [" <= "]),
+    ("constm", re.compile(r"(?<![\w\.\"'])(\d+)(?![\w\.\"'])"), None),          # n -> n-1 (n > 0)
+    ("dropl", re.compile(r"\bif (?!let\b)([^{&|]+) (&&|\|\|) ([^{]+) \{\s*$"), None),  # if a && b { -> if b {
+    ("dropr", re.compile(r"\bif (?!let\b)([^{&|]+) (&&|\|\|) ([^{]+) \{\s*$"), None),  # if a && b { -> if a {
+    ("brk", re.compile(r"^(\s*)break\b"), None),                                    # break -> continue
+    ("brk", re.compile(r"^(\s*)continue\b"), None),                                 # continue -> break
+    ("minmax", re.compile(r"\.min\("), [".max("]),
+    ("minmax", re.compile(r"\.max\("), [".min("]),
+    ("retnone", re.compile(r"\breturn Some\((.*)\)(;?)\s*$"), None),                # return Some(x) -> return None
+    ("arith2", re.compile(r"(?<=[\w\)\]]) \* (?=[\w\(])"), [" / "]),
+    ("arith2", re.compile(r"(?<=[\w\)\]]) / (?=[\w\(])"), [" * "]),
+    ("arith2", re.compile(r"(?<=[\w\)\]]) % (?=[\w\(])"), [" / "]),
+    ("range", re.compile(r"(?<=[\w\)\]]) \.\. (?=[\w\(])"), [" ..= "]),
+    ("range", re.compile(r"(?<=[\w\)\]]) \.\.= (?=[\w\(])"), [" .. "]),
+    ("unwrapor", re.compile(r"\.is_some\(\)"), [".is_none()"]),
+    ("unwrapor", re.compile(r"\.is_none\(\)"), [".is_some()"]),
+    ("unwrapor", re.compile(r"\.is_ok\(\)"), [".is_err()"]),
+    ("unwrapor", re.compile(r"\.is_err\(\)"), [".is_ok()"]),
+    ("unwrapor", re.compile(r"\.is_empty\(\)"), [".len() == 1"]),
+]
+ACTIVE_OPS = OPS
 STMT = re.compile(r"^\s*(?!let\b|return\b|break\b|continue\b)[a-z_][\w\.]*(\.[a-z_]+\([^;]*\)|\s*(\+|-)?=\s*[^;]+);\s*$")
 
 
@@ -93,11 +119,27 @@ def mutants_of(path):
         if SKIP_LINE.search(l): continue
         code, cmt = code_part(l)
         if not code.strip(): continue
-        for kind, rx, reps in OPS:
+        for kind, rx, reps in ACTIVE_OPS:
             if kind == "some": continue
             for m in rx.finditer(code):
                 if in_string(code, m.start()): continue
-                if kind == "const":
+                if kind == "constm":
+                    n = int(m.group(1))
+                    if n == 0 or n > 70000: continue
+                    new = code[:m.start(1)] + str(n - 1) + code[m.end(1):]
+                    out.append((i, kind, l, new + cmt))
+                elif kind in ("dropl", "dropr"):
+                    keep = m.group(3) if kind == "dropl" else m.group(1)
+                    new = code[:m.start(1)] + keep + code[m.end(3):]
+                    out.append((i, kind, l, new + cmt))
+                elif kind == "brk":
+                    w = code[m.end(1):]
+                    new = code[:m.end(1)] + ("continue" + w[5:] if w.startswith("break") else "break" + w[8:])
+                    out.append((i, kind, l, new + cmt))
+                elif kind == "retnone":
+                    new = code[:m.start()] + "return None" + m.group(2)
+                    out.append((i, kind, l, new + cmt))
+                elif kind == "const":
                     n = int(m.group(1))
                     if n > 70000: continue
                     new = code[:m.start(1)] + str(n + 1) + code[m.end(1):]
@@ -110,7 +152,7 @@ def mutants_of(path):
                     for r in reps:
                         new = code[:m.start()] + r + code[m.end():]
                         out.append((i, kind, l, new + cmt))
-        if STMT.match(code):
+        if ACTIVE_OPS is OPS and STMT.match(code):
             out.append((i, "del", l, "// MUT-DELETED " + l.strip()))
     return out
 
@@ -205,9 +247,12 @@ def main():
     ap.add_argument("--files", nargs="*")
     ap.add_argument("--base", default="/tmp/mutsweep")
     ap.add_argument("--list", action="store_true")
+    ap.add_argument("--ops", default="A")
     a = ap.parse_args()
+    global ACTIVE_OPS
+    if a.ops == "B": ACTIVE_OPS = OPS_B
     os.makedirs(a.out, exist_ok=True)
-    resf = os.path.join(a.out, "results.jsonl")
+    resf = os.path.join(a.out, "results.jsonl" if a.ops == "A" else f"results_{a.ops}.jsonl")
     done = set()
     if os.path.exists(resf):
         for l in open(resf):
